@@ -25,3 +25,40 @@ pub fn schedule(t: &mut Tape<'_>, len: usize) -> Vec<usize> {
 pub fn bytewise(len: usize) -> Vec<usize> {
     (1..len).collect()
 }
+
+/// A schedule drawn before the input is known (so that an exhausted tape degrades the input,
+/// not the schedule); resolved against the input length afterwards.
+#[derive(Clone, Debug)]
+pub enum SchedSpec {
+    Single,
+    Fracs(Vec<u16>),
+    Bytewise,
+    Block(usize),
+}
+
+pub fn sched_spec(t: &mut Tape<'_>) -> SchedSpec {
+    match t.weighted(&[2, 5, 1, 2]) {
+        0 => SchedSpec::Single,
+        1 => {
+            let k = t.range(0, 6);
+            SchedSpec::Fracs((0..k).map(|_| t.frac()).collect())
+        }
+        2 => SchedSpec::Bytewise,
+        _ => SchedSpec::Block(*t.pick(&[1usize, 2, 3, 5, 7, 16, 64])),
+    }
+}
+
+impl SchedSpec {
+    pub fn resolve(&self, len: usize) -> Vec<usize> {
+        match self {
+            SchedSpec::Single => vec![],
+            SchedSpec::Fracs(f) => {
+                let mut v: Vec<usize> = f.iter().map(|x| frac_to_pos(*x, len)).collect();
+                v.sort();
+                v
+            }
+            SchedSpec::Bytewise => (1..len).collect(),
+            SchedSpec::Block(b) => (1..len).filter(|i| i % b == 0).collect(),
+        }
+    }
+}
